@@ -46,7 +46,7 @@ def register(lib):
     def np_dtype(I, d):
         return DType(d)
     E['numpy.dtype'] = np_dtype
-    M[('DType', 'newbyteorder')] = lambda I, d, order='S': DType(d.name)
+    M[('DType', 'newbyteorder')] = lambda I, d, order='S': DType(d.name, order=('>' if order in ('>', 'B', 'big') else ('<' if order in ('<', 'L', 'little') else ('>' if d.order != '>' else '<'))))
 
     def np_zeros(I, shape, dtype='float64'):
         use_axiom('AX-NP-INDEX')
@@ -306,8 +306,11 @@ def register(lib):
             buf = BM.concrete_bytes(buf)
         if not isinstance(buf, BM.BytesBase):
             raise PyRaise('TypeError', 'a bytes-like object is required')
-        if dt != 'int32':
+        if dt not in ('int32', 'float32'):
             raise Unsupported(f'frombuffer dtype {dt}')
+        big = isinstance(dtype, DType) and dtype.order == '>'
+        if big and dt != 'float32':
+            raise Unsupported('frombuffer big-endian ints')
         buf = buf.snapshot()
         rem = ops_binop('%', buf.length, 4)
         bad = ops_cmp('!=', rem, 0)
@@ -328,10 +331,15 @@ def register(lib):
             c.require(mk_bool(z3.Implies(z3.And(j >= 0, j < 4),
                                          z3.And(tj.zk() == t.zk(), tj.zo() == t.zo() + j))),
                       'frombuffer.contiguous', kind='axiom-pre')
+            if dt == 'float32':
+                # the float32 whose 4 bytes start at that file offset, read in the stated byte order
+                return STok((BM.F32BE if big else BM.F32LE)(t.zk(), t.zo()))
             w = BM.U32(t.zk(), t.zo())
             c.assume_raw(z3.And(w >= 0, w < 2**32))
             return NP.wrap_int(mk_int(w), 32, signed=True)
-        return SArray((n,), fn, 'int32')
+        r = SArray((n,), fn, dt)
+        r.byteorder = '>' if big else '='
+        return r
     E['numpy.frombuffer'] = np_frombuffer
 
     # ------------------------------------------------------------------ ndarray methods
